@@ -368,6 +368,13 @@ func (dc *DataContext) SetValue(Vars map[string]reflect.Value, variable string, 
 			return core.SetSingleValue(v, variable, newValue)
 		} else {
 			//in RuleEntity
+			if newValue.IsValid() && newValue.CanAddr() && newValue.CanInterface() {
+				//the value is a field or an element of injected data: the local gets its value, not its location,
+				//otherwise a later store into that field/element would silently change the local as well
+				cp := reflect.New(newValue.Type()).Elem()
+				cp.Set(newValue)
+				newValue = cp
+			}
 			dc.lockVars.Lock()
 			Vars[variable] = newValue
 			dc.lockVars.Unlock()
